@@ -332,13 +332,13 @@ def gen_expr(rng, ctx, depth, p_missing):
             return ("bool", rng.random() < 0.5)
         return ("none",)
     if r < 0.55:
-        base = gen_expr(rng, ctx, depth - 1, p_missing)
+        base = gen_nonconst(rng, ctx, depth - 1, p_missing)
         f = rng.choice(FIELDS)
         if base[0] == "var" and isinstance(ctx.get(base[1]), dict) and ctx[base[1]] and rng.random() >= p_missing:
             f = rng.choice(list(ctx[base[1]]))
         return ("attr", base, f)
     if r < 0.66:
-        base = gen_expr(rng, ctx, depth - 1, p_missing)
+        base = gen_nonconst(rng, ctx, depth - 1, p_missing)
         if rng.random() < 0.7:
             i = ("int", rng.choice([0, 1, 2, -1, 5]))
         elif rng.random() < 0.5:
@@ -355,6 +355,40 @@ def gen_expr(rng, ctx, depth, p_missing):
     if r < 0.94:
         return ("range", gen_expr(rng, ctx, depth - 1, p_missing) if rng.random() < 0.5 else ("int", rng.choice([0, 1, 2, 3])))
     return ("list", [gen_expr(rng, ctx, depth - 1, p_missing) for _ in range(rng.choice([0, 1, 2, 3]))])
+
+
+def is_const(e):
+    k = e[0]
+    if k in ("var", "range"):
+        return False
+    if k in ("str", "int", "bool", "none"):
+        return True
+    if k == "list":
+        return all(is_const(x) for x in e[1])
+    if k == "attr":
+        return is_const(e[1])
+    return all(is_const(x) for x in e[1:])
+
+
+def gen_nonconst(rng, ctx, depth, p_missing):
+    """base of an attribute/item access: Jinja folds variable-free expressions at compile time
+    (outside the sub-language), so 9 times out of 10 the base mentions a variable"""
+    for _ in range(4):
+        e = gen_expr(rng, ctx, depth, p_missing)
+        if not is_const(e) or rng.random() < 0.1:
+            return e
+    defined = list(ctx)
+    return ("var", rng.choice(defined) if defined and rng.random() >= p_missing else rng.choice(MISSING))
+
+
+def merge_texts(nodes):
+    res = []
+    for nd in nodes:
+        if res and res[-1][0] == "text" and nd[0] == "text":
+            res[-1] = ("text", res[-1][1] + nd[1])
+        else:
+            res.append(nd)
+    return res
 
 
 def gen_text(rng):
@@ -639,7 +673,7 @@ def gen_sheet(rng, ctx, p_missing):
         if r < 0.1:
             return T(rng.choice(["hello", "a|b", "plain text"]))
         if r < 0.9:
-            return ("tmpl", [("text", rng.choice(["m:", "Hi ", "t="]))] + gen_nodes(rng, sub, 1, p_missing, n=rng.choice([1, 2])))
+            return ("tmpl", merge_texts([("text", rng.choice(["m:", "Hi ", "t="]))] + gen_nodes(rng, sub, 1, p_missing, n=rng.choice([1, 2]))))
         return ("native", gen_expr(rng, sub, 1, p_missing))
 
     def block(depth, bound):
@@ -793,7 +827,7 @@ def run(ctx):
 
         for field in ("s", "b", "l", "ls"):
             v.coverage["evaluations"] += 1
-            r = run_cli_mode(RowParser(M, CellParser()).parse_row, {field: text}, dict(pctx))
+            r = run_cli_mode(RowParser(M, CellParser()).parse_row, {field: text}, py_ctx(pctx))
             if r[0] == "ok":
                 got = getattr(r[1], field)
                 fail("missing-name-renders", f"{family}: RowParser field {field}: {text!r} with {pctx!r} -> {got!r} (no error)",
@@ -927,7 +961,10 @@ def run(ctx):
                     dist["spy_untouched"] += 1
                     continue
                 dist["spy_touched"] += 1
-                if ir[0] == "ok":
+                if ir[0] == "ok" and ir[1] == UNDEF:
+                    # native template handing back an Undefined object: instantiation ends in RowParser
+                    row_level_native(text, octx, "generated-native")
+                elif ir[0] == "ok":
                     only_repr = set(tch) <= {"repr"}
                     key = "undefined-inside-list-literal" if only_repr else "missing-name-renders"
                     fail(key, f"{text!r} touches {name!r} ({tch[0]}) but renders {ir[1]!r} when {name!r} is not defined",
